@@ -22,7 +22,7 @@ import (
 // an endpoint that retries without the delay is found there nearly every time. This covers attempts that fail
 // before the endpoint has ever connected and attempts that fail after a connection was lost.
 func TestC14FailedAttemptsPaced(t *testing.T) {
-	rec := evid.New(t, "C14", "a TCP client endpoint against a loopback port on which nothing listens for a generated time, first from node start (no connection has ever succeeded), then again after a connection was accepted and dropped by the peer; the library goroutines are sampled every few milliseconds and a sample counts as 'attempting' when a stack is inside net.(*Dialer).DialContext; with the reconnect delay (60 ms here) honoured at most a small share of samples can be attempting (limit: half); non-trivial = both windows sampled at least 20 times; distinct by hash of the window lengths")
+	rec := evid.New(t, "C14", "a TCP client endpoint against a loopback port on which nothing listens for a generated time, first from node start (no connection has ever succeeded), then again after a connection was accepted and dropped by the peer; the library goroutines are sampled every few milliseconds and a sample counts as 'attempting' when a stack is inside net.(*Dialer).DialContext; with the reconnect delay (60 ms here) honoured at most a small share of samples can be attempting (limit: half); non-trivial = both windows sampled at least 10 times; distinct by hash of the window lengths")
 	rec.Require("failed-attempts-before-first-connection", "failed-attempts-after-lost-connection")
 	c14Hook()
 	evid.Check(t, rec, evid.N(6, 20), func(t *rapid.T) {
@@ -36,10 +36,10 @@ func TestC14FailedAttemptsPaced(t *testing.T) {
 			t.Fatalf("%s\n%v", desc, err)
 		}
 		var cls []string
-		if s1 >= 20 {
+		if s1 >= 10 {
 			cls = append(cls, "failed-attempts-before-first-connection")
 		}
-		if s2 >= 20 {
+		if s2 >= 10 {
 			cls = append(cls, "failed-attempts-after-lost-connection")
 		}
 		rec.Case(len(cls) == 2, evid.HashS(desc), cls...)
